@@ -919,3 +919,587 @@ func fromGathered(v ssa.Value, g *gathered, depth int) bool {
 	}
 	return false
 }
+
+// ruleChildBucketError: a TypedBucket keeps its error in itself, and a bucket obtained from it (EmptyBucket,
+// GetOrCreateBucket, …) keeps ITS error in itself.  Where a method of TypedBucket finds that such a child bucket
+// has failed, the failure is recorded in the receiver (or returned) before the method returns: callers look at
+// the bucket they were handed, a failure left in the child is lost and the transaction commits.
+func ruleChildBucketError(c *Ctx, rule string) {
+	p := c.P
+	tb := p.Named("boltz", "TypedBucket")
+	// the error cell: field Err of the embedded error holder; owner() gives the bucket it belongs to
+	isErrCell := func(f *types.Var) bool { return f != nil && f.Name() == "Err" && isErrorType(f.Type()) }
+	owner := func(base ssa.Value) ssa.Value {
+		if ld, isLd := base.(*ssa.UnOp); isLd && ld.Op == token.MUL {
+			if fa, isFA := ld.X.(*ssa.FieldAddr); isFA {
+				if st, isSt := derefType(fa.X.Type()).Underlying().(*types.Struct); isSt && st.Field(fa.Field).Embedded() {
+					return fa.X
+				}
+			}
+		}
+		return base
+	}
+	n := 0
+	for _, fn := range c.prodFuncs("boltz") {
+		if fn.Signature.Recv() == nil || namedOf(fn.Signature.Recv().Type()) != tb || len(fn.Params) == 0 {
+			continue
+		}
+		recv := ssa.Value(fn.Params[0])
+		isChild := func(v ssa.Value) bool {
+			if v == nil || v == recv || namedOf(v.Type()) != tb {
+				return false
+			}
+			// obtained here from a call (possibly with an error next to it)
+			switch x := v.(type) {
+			case *ssa.Call:
+				return true
+			case *ssa.Extract:
+				_, isCall := x.Tuple.(*ssa.Call)
+				return isCall
+			}
+			return false
+		}
+		childFailed := func(f Fact) bool {
+			switch f.Kind {
+			case "nonnil":
+				if !f.Pol {
+					return false
+				}
+				if ff, base := loadedField(f.V); isErrCell(ff) && isChild(owner(base)) {
+					return true
+				}
+			case "true":
+				if !f.Pol {
+					return false
+				}
+				if k, isCall := f.V.(*ssa.Call); isCall {
+					if cal, _ := calleeOf(k.Common()); cal != nil && cal.Name() == "HasError" {
+						return isChild(owner(callRecv(k.Common())))
+					}
+				}
+			}
+			return false
+		}
+		var fi *FactInfo
+		for _, b := range fn.Blocks {
+			if _, isIf := b.Instrs[len(b.Instrs)-1].(*ssa.If); !isIf {
+				continue
+			}
+			for _, to := range b.Succs {
+				if fi == nil {
+					fi = factsOf(fn)
+				}
+				hit := false
+				for f := range fi.edgeFacts(b, to) {
+					if childFailed(f) {
+						hit = true
+					}
+				}
+				if !hit {
+					continue
+				}
+				n++
+				c.Analysed(FnName(fn))
+				records := func(in ssa.Instruction) bool {
+					switch x := in.(type) {
+					case *ssa.Store:
+						f, base := fieldOfAddr(x.Addr)
+						return isErrCell(f) && owner(base) == recv
+					case ssa.CallInstruction:
+						cal, _ := calleeOf(x.Common())
+						return cal != nil && cal.Name() == "SetError" && owner(callRecv(x.Common())) == recv
+					}
+					return false
+				}
+				ei := errorResultIndex(fn.Signature)
+				ps := &pathSearch{fn: fn, fi: fi, start: to, stop: records}
+				ps.atReturn = func(r *ssa.Return, k knowMap) bool {
+					if ei >= 0 && returnIsFailure(fi, r, ei, k) {
+						return false
+					}
+					// handing the failed child itself back is handing the failure back
+					for _, res := range r.Results {
+						if isChild(res) {
+							return false
+						}
+					}
+					return true
+				}
+				lost := ps.run()
+				c.Check(!lost, rule, FnName(fn)+": failure of a child bucket at "+p.Pos(lastPos(b)), p.Pos(lastPos(b)), "a failure found in a child bucket is recorded in the receiver (or returned) before the method returns", "after a child bucket was found to have failed the method can return without the failure being recorded in the receiver or returned: the caller sees a healthy bucket and the transaction commits without the write")
+			}
+		}
+	}
+	c.CallSites(n)
+	c.Floor(rule, 2)
+}
+
+// ---- rules added after round 9 ------------------------------------------------------------------------
+
+// ruleConstraintRegistered: Indexer.AddConstraint adds the constraint it is given on every path.  Constraints have
+// no identity other than themselves (the label is built from entity type and symbol name, which sibling child
+// stores share): a registration that is skipped because "one like it" is already there drops a delete rule.
+func ruleConstraintRegistered(c *Ctx, rule string) {
+	p := c.P
+	fn := p.SSAFunc(p.Method("boltz", "Indexer", "AddConstraint"))
+	name := FnName(fn)
+	c.Analysed(name)
+	fld := p.Field("boltz", "Indexer", "constraints")
+	isAppend := func(in ssa.Instruction) bool {
+		st, ok := in.(*ssa.Store)
+		if !ok {
+			return false
+		}
+		if f, _ := fieldOfAddr(st.Addr); !sameVar(f, fld) {
+			return false
+		}
+		call, isCall := st.Val.(*ssa.Call)
+		if !isCall {
+			return false
+		}
+		bi, isB := call.Call.Value.(*ssa.Builtin)
+		if !isB || bi.Name() != "append" || len(call.Call.Args) != 2 {
+			return false
+		}
+		sl, isSl := call.Call.Args[1].(*ssa.Slice)
+		if !isSl {
+			return false
+		}
+		arr, isArr := sl.X.(*ssa.Alloc)
+		if !isArr {
+			return false
+		}
+		for _, e := range arrayLiteralElems(arr) {
+			if e == ssa.Value(fn.Params[1]) {
+				return true
+			}
+		}
+		return false
+	}
+	ok := noPathAvoiding(fn, isAppend, nil)
+	c.Check(ok, rule, name, p.Pos(fn.Pos()), "every path appends the given constraint to the indexer's list", "a return is reachable without the given constraint having been appended (registration skipped or made conditional): an index or a delete rule that was declared is never applied")
+	c.Floor(rule, 1)
+}
+
+// ruleCreateIsCreate: whether an indexing run is a create is fixed by the entry point: Create builds its indexing
+// context with "create", Update and the delete with "not create" — a constant, never something computed from
+// the data (a presence test made after the entity's bucket was created answers "present" for every create, and
+// an update-style run skips the not-null checks for a value that is nil before and after).
+func ruleCreateIsCreate(c *Ctx, rule string) {
+	p := c.P
+	ictx := p.Named("boltz", "IndexingContext")
+	n := 0
+	for _, m := range []string{"Create", "Update", "processDeleteConstraints"} {
+		fn := p.SSAFunc(p.Method("boltz", "BaseStore", m))
+		for _, call := range callsIn(fn) {
+			cv, isCall := call.(*ssa.Call)
+			if !isCall || namedOf(cv.Type()) != ictx {
+				continue
+			}
+			if _, isPtr := cv.Type().Underlying().(*types.Pointer); !isPtr {
+				continue
+			}
+			n++
+			c.Analysed(FnName(fn))
+			bad := ""
+			for _, a := range cv.Call.Args {
+				b, isBasic := a.Type().Underlying().(*types.Basic)
+				if !isBasic || b.Info()&(types.IsBoolean|types.IsInteger) == 0 {
+					continue
+				}
+				if _, isConst := a.(*ssa.Const); !isConst {
+					bad = describeValue(a)
+				}
+			}
+			c.Check(bad == "", rule, FnName(fn)+": "+describeInstr(call), p.Pos(call.Pos()), "the kind of indexing run (create or not) handed to the context constructor is a constant", "the kind of indexing run is computed ("+bad+") instead of being fixed by the entry point: a create can run as an update (unchanged nil values skip the not-null and uniqueness checks) or the reverse")
+		}
+	}
+	// ... and the same for the persist context handed to the entity strategy: its IsCreate is the entry point's
+	// (an Update that tells the strategy "create" has it write the create-only fields — the system flag among them)
+	for _, m := range []string{"Create", "Update"} {
+		fn := p.SSAFunc(p.Method("boltz", "BaseStore", m))
+		for _, b := range fn.Blocks {
+			for _, in := range b.Instrs {
+				st, isSt := in.(*ssa.Store)
+				if !isSt {
+					continue
+				}
+				f, _ := fieldOfAddr(st.Addr)
+				if f == nil || f.Name() != "IsCreate" || !isBoolType(f.Type()) {
+					continue
+				}
+				n++
+				_, isConst := st.Val.(*ssa.Const)
+				c.Check(isConst, rule, FnName(fn)+": "+f.Name()+" of the persist context", p.Pos(st.Pos()), "create-or-not handed to the entity strategy is a constant of the entry point", "create-or-not handed to the entity strategy is computed ("+describeValue(st.Val)+"): an update can run the strategy's create path, which writes the fields that are fixed at creation (isSystem)")
+			}
+		}
+	}
+	c.CallSites(n)
+	c.Floor(rule, 3)
+}
+
+// ruleFreshCascadeFilter: the filter with which a delete constraint looks for referrers is made for this
+// invocation.  The cascade is re-entrant (deleting a referrer runs the same constraint for the referrer's id while
+// the outer cursor is still open): a filter object kept in the constraint and re-bound by the nested run changes
+// what the outer cursor matches.
+func ruleFreshCascadeFilter(c *Ctx, rule string) {
+	p := c.P
+	hook := p.SSAFunc(p.Method("boltz", "fkDeleteCascadeConstraint", "ProcessBeforeDelete"))
+	n := 0
+	for _, fn := range dispatchScope(hook) {
+		for _, call := range callsIn(fn) {
+			if !invokeNamed(call, "IterateValidIds") && !invokeNamed(call, "IterateIds") {
+				continue
+			}
+			args := call.Common().Args
+			if len(args) < 2 {
+				continue
+			}
+			n++
+			c.Analysed(FnName(fn))
+			// where the filter object comes from
+			shared := ""
+			seen := map[ssa.Value]bool{}
+			var walk func(v ssa.Value, f *ssa.Function, depth int)
+			walk = func(v ssa.Value, f *ssa.Function, depth int) {
+				if v == nil || seen[v] || depth > 8 || shared != "" {
+					return
+				}
+				seen[v] = true
+				switch x := v.(type) {
+				case *ssa.UnOp:
+					if x.Op == token.MUL {
+						if fld, base := loadedField(x); fld != nil && len(f.Params) > 0 && (base == ssa.Value(f.Params[0]) || paramCopy(base, f.Params[0])) {
+							if nm := namedOf(f.Params[0].Type()); nm != nil && strings.Contains(nm.Obj().Name(), "Constraint") {
+								shared = "field " + fld.Name() + " of the constraint"
+								return
+							}
+						}
+						walk(x.X, f, depth+1)
+					}
+				case *ssa.Phi:
+					for _, e := range x.Edges {
+						walk(e, f, depth+1)
+					}
+				case *ssa.Extract:
+					walk(x.Tuple, f, depth+1)
+				case *ssa.MakeInterface:
+					walk(x.X, f, depth+1)
+				case *ssa.ChangeInterface:
+					walk(x.X, f, depth+1)
+				case *ssa.Call:
+					if x.Call.IsInvoke() {
+						walk(x.Call.Value, f, depth+1) // q.Bind(id): the object bound
+						return
+					}
+					if sc := x.Call.StaticCallee(); sc != nil && sc.Blocks != nil && inModule(sc) {
+						if sc.Signature.Recv() != nil && len(x.Call.Args) > 0 {
+							walk(x.Call.Args[0], f, depth+1) // a method returning its receiver (chainable Bind)
+						}
+						for _, r := range returnsOf(sc) {
+							if len(r.Results) > 0 {
+								walk(r.Results[0], sc, depth+1)
+							}
+						}
+					}
+				}
+			}
+			walk(args[1], fn, 0)
+			c.Check(shared == "", rule, FnName(fn)+": "+describeInstr(call), p.Pos(call.Pos()), "the referrer filter is an object made for this invocation", "the referrer filter is an object kept in "+shared+" and shared by every invocation: the nested delete of a referrer re-binds it while the outer cursor is still open, and the outer loop stops matching the remaining referrers")
+		}
+	}
+	c.CallSites(n)
+	c.Floor(rule, 2)
+}
+
+// ruleSymbolPathNotName: where a symbol's data lives inside an entity is its PATH (GetPath()); the name is what
+// queries call it.  The two differ for symbols with a storage key of their own and for nested symbols.  A bucket
+// looked up by GetName() finds nothing there (or something else), while the writers went by the path.
+func ruleSymbolPathNotName(c *Ctx, rule string) {
+	p := c.P
+	n, bad := 0, 0
+	for _, fn := range c.prodFuncs("boltz") {
+		for _, call := range callsIn(fn) {
+			cal, _ := calleeOf(call.Common())
+			if cal == nil {
+				continue
+			}
+			switch cal.Name() {
+			case "GetBucket", "GetOrCreateBucket", "EmptyBucket", "GetPath", "GetOrCreatePath", "Bucket", "CreateBucketIfNotExists":
+			default:
+				continue
+			}
+			if rt := recvType(cal); rt == nil || (namedOf(rt) != p.Named("boltz", "TypedBucket") && !strings.HasSuffix(types.TypeString(rt, nil), "bbolt.Bucket")) {
+				continue
+			}
+			n++
+			for _, a := range call.Common().Args[1:] {
+				// the key: GetName() of a symbol, possibly converted
+				v := a
+				for i := 0; i < 3; i++ {
+					switch x := v.(type) {
+					case *ssa.Convert:
+						v = x.X
+					case *ssa.ChangeType:
+						v = x.X
+					}
+				}
+				if sl, isSl := v.(*ssa.Slice); isSl {
+					if arr, isArr := sl.X.(*ssa.Alloc); isArr {
+						for _, e := range arrayLiteralElems(arr) {
+							if k, isCall := e.(*ssa.Call); isCall && invokeNamed(k, "GetName") && isSymbolValue(p, k.Call.Value) {
+								v = k
+							}
+						}
+					}
+				}
+				if k, isCall := v.(*ssa.Call); isCall && invokeNamed(k, "GetName") && isSymbolValue(p, k.Call.Value) {
+					bad++
+					c.Analysed(FnName(fn))
+					c.Bad(rule, FnName(fn)+": "+describeInstr(call), p.Pos(call.Pos()), "a bucket inside an entity is looked up by the symbol's NAME; the symbol's data is stored under its PATH (GetPath()), which differs for symbols with a storage key of their own and for nested symbols: the lookup misses what the writers wrote")
+				}
+			}
+		}
+	}
+	if bad == 0 {
+		c.OK(rule, "bucket lookups", "-", "no bucket inside an entity is looked up by a symbol's name")
+	}
+	c.CallSites(n)
+}
+
+func isSymbolValue(p *Prog, v ssa.Value) bool {
+	it, ok := v.Type().Underlying().(*types.Interface)
+	if !ok {
+		return false
+	}
+	for i := 0; i < it.NumMethods(); i++ {
+		if it.Method(i).Name() == "GetPath" {
+			return true
+		}
+	}
+	return false
+}
+
+// ruleFreshSetCursor: the set cursors a row cursor hands out are stateful (they have a position, scanners also
+// count what they have skipped and collected) and each caller walks its own: OpenSetCursor / OpenSetCursorForQuery
+// hand out an object made by this very call — never one remembered in the row cursor from an earlier call (a second
+// predicate over the same set would start where the first one stopped; a reused scanner keeps its counters).
+func ruleFreshSetCursor(c *Ctx, rule string, pkgs ...string) {
+	p := c.P
+	n := 0
+	for _, fn := range c.prodFuncs(pkgs...) {
+		if fn.Signature.Recv() == nil || (fn.Name() != "OpenSetCursor" && fn.Name() != "OpenSetCursorForQuery") || fn.Parent() != nil {
+			continue
+		}
+		n++
+		name := FnName(fn)
+		c.Analysed(name)
+		remembered := ""
+		for _, r := range returnsOf(fn) {
+			if len(r.Results) == 0 {
+				continue
+			}
+			seen := map[ssa.Value]bool{}
+			var walk func(v ssa.Value, depth int)
+			walk = func(v ssa.Value, depth int) {
+				if v == nil || seen[v] || depth > 8 || remembered != "" {
+					return
+				}
+				seen[v] = true
+				switch x := v.(type) {
+				case *ssa.MakeInterface:
+					walk(x.X, depth+1)
+				case *ssa.ChangeInterface:
+					walk(x.X, depth+1)
+				case *ssa.Phi:
+					for _, e := range x.Edges {
+						walk(e, depth+1)
+					}
+				case *ssa.Extract:
+					walk(x.Tuple, depth+1)
+				case *ssa.Lookup:
+					if f, base := loadedField(x.X); f != nil && (base == ssa.Value(fn.Params[0]) || paramCopy(base, fn.Params[0])) {
+						remembered = "looked up in " + f.Name() + " of the row cursor"
+					}
+				case *ssa.UnOp:
+					if x.Op == token.MUL {
+						if f, base := loadedField(x); f != nil && (base == ssa.Value(fn.Params[0]) || paramCopy(base, fn.Params[0])) {
+							if _, isIface := f.Type().Underlying().(*types.Interface); isIface || strings.Contains(strings.ToLower(f.Name()), "cursor") || strings.Contains(strings.ToLower(f.Name()), "scanner") {
+								remembered = "kept in field " + f.Name() + " of the row cursor"
+							}
+						}
+					}
+				}
+			}
+			walk(r.Results[0], 0)
+		}
+		c.Check(remembered == "", rule, name, p.Pos(fn.Pos()), "every cursor handed out is made by this call", "a cursor "+remembered+" by an earlier call is handed out again: set cursors and scanners are stateful, the second user starts where the first one stopped")
+	}
+	c.CallSites(n)
+	c.Floor(rule, 2)
+}
+
+// ruleMakeThenAppend: a slice made with a length (make([]T, n), n not the constant 0) already has n zero elements;
+// appending to it puts the real elements behind n nils.  For element types whose zero value is nil that is a nil
+// dereference waiting for the first reader.  (Filling by index, or make([]T, 0, n) with append, are the two correct
+// forms.)
+func ruleMakeThenAppend(c *Ctx, rule string, pkgs ...string) {
+	p := c.P
+	n, bad := 0, 0
+	for _, fn := range c.prodFuncs(pkgs...) {
+		var origin func(v ssa.Value, depth int, seen map[ssa.Value]bool) *ssa.MakeSlice
+		origin = func(v ssa.Value, depth int, seen map[ssa.Value]bool) *ssa.MakeSlice {
+			if v == nil || depth > 8 || seen[v] {
+				return nil
+			}
+			seen[v] = true
+			switch x := v.(type) {
+			case *ssa.MakeSlice:
+				if k, isK := x.Len.(*ssa.Const); isK && k.Value != nil && constant.Sign(k.Value) == 0 {
+					return nil
+				}
+				return x
+			case *ssa.Phi:
+				for _, e := range x.Edges {
+					if m := origin(e, depth+1, seen); m != nil {
+						return m
+					}
+				}
+			case *ssa.Call:
+				if bi, isB := x.Call.Value.(*ssa.Builtin); isB && bi.Name() == "append" && len(x.Call.Args) > 0 {
+					return origin(x.Call.Args[0], depth+1, seen)
+				}
+			case *ssa.UnOp:
+				if x.Op != token.MUL {
+					return nil
+				}
+				// a field of an object built here (result.values)
+				if fa, isFA := x.X.(*ssa.FieldAddr); isFA {
+					if al, isAl := fa.X.(*ssa.Alloc); isAl && al.Referrers() != nil {
+						for _, r := range *al.Referrers() {
+							fa2, isFA2 := r.(*ssa.FieldAddr)
+							if !isFA2 || fa2.Field != fa.Field || fa2.Referrers() == nil {
+								continue
+							}
+							for _, fr := range *fa2.Referrers() {
+								if st, isSt := fr.(*ssa.Store); isSt && st.Addr == ssa.Value(fa2) {
+									if m := origin(st.Val, depth+1, seen); m != nil {
+										return m
+									}
+								}
+							}
+						}
+					}
+				}
+			}
+			return nil
+		}
+		for _, call := range callsIn(fn) {
+			cv, isCall := call.(*ssa.Call)
+			if !isCall {
+				continue
+			}
+			bi, isB := cv.Call.Value.(*ssa.Builtin)
+			if !isB || bi.Name() != "append" || len(cv.Call.Args) != 2 {
+				continue
+			}
+			sl, isSl := cv.Type().Underlying().(*types.Slice)
+			if !isSl {
+				continue
+			}
+			switch sl.Elem().Underlying().(type) {
+			case *types.Interface, *types.Pointer:
+			default:
+				continue
+			}
+			n++
+			if m := origin(cv.Call.Args[0], 0, map[ssa.Value]bool{}); m != nil {
+				bad++
+				c.Analysed(FnName(fn))
+				c.Bad(rule, FnName(fn)+": append at "+p.Pos(cv.Pos()), p.Pos(cv.Pos()), "elements are appended to a slice that was made with a length ("+p.Pos(m.Pos())+"): the result starts with that many nil elements, and whoever reads them dereferences nil")
+			}
+		}
+	}
+	if bad == 0 {
+		c.OK(rule, "appends", "-", "no slice of nil-able elements made with a length is appended to")
+	}
+	c.CallSites(n)
+}
+
+// ruleSubQueryWhole: the query that count(from … where …) / isEmpty(from …) evaluates and that visitors walk is
+// the sub-query object the listener built — the whole of it.  A typed node that is handed a query re-assembled
+// from some of its parts (predicate and paging, say) no longer shows the rest (the sort clause and its symbols) to
+// Accept: validation does not see those symbols.
+func ruleSubQueryWhole(c *Ctx, rule string) {
+	p := c.P
+	subq := p.Named("ast", "subQueryNode")
+	targets := map[*types.Named]bool{p.Named("ast", "CountSetExprNode"): true, p.Named("ast", "IsEmptySetExprNode"): true}
+	n := 0
+	for _, fn := range c.prodFuncs("ast") {
+		for _, b := range fn.Blocks {
+			for _, in := range b.Instrs {
+				st, isSt := in.(*ssa.Store)
+				if !isSt {
+					continue
+				}
+				f, base := fieldOfAddr(st.Addr)
+				if f == nil || f.Name() != "query" || base == nil || !targets[namedOf(base.Type())] {
+					continue
+				}
+				n++
+				c.Analysed(FnName(fn))
+				rebuilt := ""
+				seen := map[ssa.Value]bool{}
+				var walk func(v ssa.Value, depth int)
+				walk = func(v ssa.Value, depth int) {
+					if v == nil || seen[v] || depth > 8 || rebuilt != "" || isNilConst(v) {
+						return
+					}
+					seen[v] = true
+					switch x := v.(type) {
+					case *ssa.Phi:
+						for _, e := range x.Edges {
+							walk(e, depth+1)
+						}
+					case *ssa.Extract:
+						walk(x.Tuple, depth+1)
+					case *ssa.ChangeInterface:
+						walk(x.X, depth+1)
+					case *ssa.TypeAssert:
+						walk(x.X, depth+1)
+					case *ssa.UnOp:
+						if ff, fb := loadedField(x); ff != nil && ff.Name() == "query" && fb != nil && namedOf(fb.Type()) == subq {
+							return // the sub-query's own query
+						}
+						if ff, _ := loadedField(x); ff != nil && ff.Name() == "query" {
+							return // handed on from another node that holds it
+						}
+						rebuilt = "taken from " + describeValue(x)
+					case *ssa.MakeInterface:
+						if al, isAl := x.X.(*ssa.Alloc); isAl {
+							rebuilt = "a new " + types.TypeString(derefType(al.Type()), func(q *types.Package) string { return q.Name() }) + " assembled at " + p.Pos(al.Pos())
+							return
+						}
+						walk(x.X, depth+1)
+					case *ssa.Call:
+						if sc := x.Call.StaticCallee(); sc != nil && sc.Blocks != nil && inModule(sc) {
+							for _, r := range returnsOf(sc) {
+								if len(r.Results) > 0 {
+									walk(r.Results[0], depth+1)
+								}
+							}
+							return
+						}
+						// the typed form of the same query (TypeTransform and the like) is still that query
+					case *ssa.Parameter:
+						// handed in by the caller (a constructor): the callers' stores are sites of their own
+					}
+				}
+				walk(st.Val, 0)
+				c.Check(rebuilt == "", rule, FnName(fn)+": "+namedOf(base.Type()).Obj().Name()+".query", p.Pos(st.Pos()), "the set function is given the sub-query's query object itself", "the set function is given "+rebuilt+" instead of the sub-query's own query: whatever was not copied (the sort clause) is invisible to Accept, so its symbols are never validated")
+			}
+		}
+	}
+	c.CallSites(n)
+	c.Floor(rule, 2)
+}
